@@ -292,12 +292,59 @@ func c20ServeProp(t *testing.T, k *verifkit.Kit) func(c c20Serve) error {
 				allNil = false
 			}
 		}
+		readiness := func(serveAt, cause time.Duration) error {
+			// 5. readiness (what the tasks actually reported is in the event log)
+			readyAt := map[int]time.Duration{}
+			for _, e := range evlog {
+				if e.What == "ready" {
+					readyAt[e.Task] = e.At
+				}
+			}
+			allReady, latestReady := len(readyAt) == len(c.Tasks), time.Duration(0)
+			for _, at := range readyAt {
+				if at > latestReady {
+					latestReady = at
+				}
+			}
+			readyIdx, startedN := -1, 0
+			for i, s := range notes {
+				if strings.Contains(s, sdnotify.Ready) {
+					if readyIdx >= 0 {
+						return verifkit.Violf("C20/ready-twice", "READY announced twice\n%s", desc())
+					}
+					readyIdx = i
+					if startedN != len(c.Tasks)+1 {
+						return verifkit.Violf("C20/ready-before-all-started", "READY after %d 'started' statuses, want %d\n%s", startedN, len(c.Tasks)+1, desc())
+					}
+				}
+				if strings.HasPrefix(s, "STATUS=started ") {
+					startedN++
+				}
+			}
+			if readyIdx >= 0 && !allReady {
+				return verifkit.Violf("C20/ready-although-a-task-is-not", "READY announced although a task never reported ready\n%s", desc())
+			}
+			if readyIdx < 0 && allReady && latestReady < serveAt && (cause < 0 || latestReady < cause) && !c.NotifyGone {
+				return verifkit.Violf("C20/ready-not-announced", "every task was ready at %v but READY was never announced\n%s", latestReady, desc())
+			}
+			return nil
+		}
 		if !ends {
 			if returned {
 				return verifkit.Violf("C20/serve-returned-spuriously", "no signal and no failure, yet Serve returned\n%s", desc())
 			}
 			_ = allNil
-			return nil // (the signal task keeps the server alive even if every task returned nil)
+			// (the signal task keeps the server alive even if every task returned nil; readiness is judged all the same)
+			for i := range c.Tasks {
+				seen := false
+				for _, e := range evlog {
+					seen = seen || (e.What == "run-start" && e.Task == i)
+				}
+				if !seen {
+					return verifkit.Violf("C20/task-not-run", "task %d was never run\n%s", i, desc())
+				}
+			}
+			return readiness(10*time.Minute, -1)
 		}
 		if !returned {
 			return verifkit.Violf("C20/serve-does-not-return", "Serve has not returned after 10 virtual minutes\n%s", desc())
@@ -338,6 +385,11 @@ func c20ServeProp(t *testing.T, k *verifkit.Kit) func(c c20Serve) error {
 			}
 		} else {
 			if serveErr == nil {
+				if sigAt >= 0 && firstFail > sigAt {
+					// a signal first, failures only while stopping: "a signal ... serving returns success" and "a fatal error
+					// ... returns that error" both apply - either
+					goto resultDone
+				}
 				return verifkit.Violf("C20/error-swallowed", "tasks failed (%v) but Serve returned nil\n%s", errs, desc())
 			}
 			named := false
@@ -367,6 +419,7 @@ func c20ServeProp(t *testing.T, k *verifkit.Kit) func(c c20Serve) error {
 				return verifkit.Violf("C20/not-the-causing-error", "Serve returned %q; the failure that came first, at %v, was %v\n%s", serveErr, firstFail, firstErrs, desc())
 			}
 		}
+	resultDone:
 		// 3. cancellation reaches every task once a task failed or a signal arrived
 		cause := time.Duration(-1)
 		for _, e := range evlog {
@@ -393,44 +446,13 @@ func c20ServeProp(t *testing.T, k *verifkit.Kit) func(c c20Serve) error {
 		}
 		for i, tk := range c.Tasks {
 			end := ended[i]
-			natural := (tk.FailNS > 0 && time.Duration(tk.FailNS) == end) || (tk.NilNS > 0 && time.Duration(tk.NilNS) == end)
+			natural := ((tk.FailNS > 0 && time.Duration(tk.FailNS) == end) || (tk.NilNS > 0 && time.Duration(tk.NilNS) == end)) && (cause < 0 || end <= cause)
 			if !natural && end != cause+time.Duration(tk.StopNS) {
 				return verifkit.Violf("C20/cancellation-late-or-early", "task %d returned at %v; cancellation cause at %v, it needs %v to stop\n%s", i, end, cause, time.Duration(tk.StopNS), desc())
 			}
 		}
-		// 5. readiness (what the tasks actually reported is in the event log)
-		readyAt := map[int]time.Duration{}
-		for _, e := range evlog {
-			if e.What == "ready" {
-				readyAt[e.Task] = e.At
-			}
-		}
-		allReady, latestReady := len(readyAt) == len(c.Tasks), time.Duration(0)
-		for _, at := range readyAt {
-			if at > latestReady {
-				latestReady = at
-			}
-		}
-		readyIdx, startedN := -1, 0
-		for i, s := range notes {
-			if strings.Contains(s, sdnotify.Ready) {
-				if readyIdx >= 0 {
-					return verifkit.Violf("C20/ready-twice", "READY announced twice\n%s", desc())
-				}
-				readyIdx = i
-				if startedN != len(c.Tasks)+1 {
-					return verifkit.Violf("C20/ready-before-all-started", "READY after %d 'started' statuses, want %d\n%s", startedN, len(c.Tasks)+1, desc())
-				}
-			}
-			if strings.HasPrefix(s, "STATUS=started ") {
-				startedN++
-			}
-		}
-		if readyIdx >= 0 && !allReady {
-			return verifkit.Violf("C20/ready-although-a-task-is-not", "READY announced although a task never reported ready\n%s", desc())
-		}
-		if readyIdx < 0 && allReady && latestReady < serveAt && (cause < 0 || latestReady < cause) && !c.NotifyGone {
-			return verifkit.Violf("C20/ready-not-announced", "every task was ready at %v but READY was never announced\n%s", latestReady, desc())
+		if err := readiness(serveAt, cause); err != nil {
+			return err
 		}
 		return nil
 	}
